@@ -419,7 +419,7 @@ class Bed:
         obs.update(method=request.method, raw_path=request.raw_path, path=request.path,
                    query=[[k, v] for k, v in request.query.items()],
                    version=f"{request.version.major}.{request.version.minor}",
-                   headers=[[k, v] for k, v in request.headers.items()],
+                   headers=[[k.decode("utf-8", "surrogateescape"), v.decode("utf-8", "surrogateescape")] for k, v in request.raw_headers],
                    keep_alive=request.keep_alive, cookies=dict(request.cookies))
         rs = case["resp"]
         mode = rs.get("read", "read")
@@ -640,7 +640,7 @@ class Bed:
             u = u.with_fragment(rq["fragment"])
         return u
 
-    async def _quiesce(self, conns, rounds=400):
+    async def _quiesce(self, conns, rounds=400000):
         quiet = 0
         for _ in range(rounds):
             await asyncio.sleep(0)
@@ -680,7 +680,7 @@ class Bed:
                         cl["stage"] = "body"
                         cl.update(status=resp.status, reason=resp.reason,
                                   version=f"{resp.version.major}.{resp.version.minor}",
-                                  headers=[[k, v] for k, v in resp.headers.items()],
+                                  headers=[[k.decode("utf-8", "surrogateescape"), v.decode("utf-8", "surrogateescape")] for k, v in resp.raw_headers],
                                   cookies={k: m.value for k, m in resp.cookies.items()})
                         mode = case.get("cread", "read")
                         if mode == "read":
@@ -752,7 +752,8 @@ class Bed:
 AUTO_REQ = {"host", "accept", "accept-encoding", "user-agent", "content-length", "content-type",
             "transfer-encoding", "connection", "cookie", "expect", "content-encoding"}
 AUTO_RESP = {"content-type", "content-length", "transfer-encoding", "date", "server", "connection",
-             "content-encoding", "set-cookie", "etag", "last-modified", "accept-ranges", "location", "vary"}
+             "content-encoding", "set-cookie", "etag", "last-modified", "accept-ranges", "location", "vary",
+             "content-disposition"}
 EMPTY_STATUS = {204, 304}
 
 
@@ -798,7 +799,7 @@ def resp_body_expect(case):
         if status in (204, 304):
             return b""
         if rs.get("none_body"):
-            return f"{status}: {rs.get('reason') or http.HTTPStatus(status).phrase}".encode()
+            return f"{status}: {rs['reason'] if rs.get('reason') is not None else http.HTTPStatus(status).phrase}".encode()
         return gen_text(b["size"], b["seed"]).encode("utf-8")
     if kind == "stream" and rs.get("no_write"):
         return b""
@@ -951,6 +952,8 @@ def oracle(case, out):
         for n in rnames:
             want = [v for k, v in rsup if k.lower() == n]
             got = multi_get(cl["headers"], n)
+            if n == "set-cookie" and rs.get("set_cookies"):
+                got = got[:len(want)]
             if got != want:
                 bad.append(("resp-header", f"response header {n!r}: caller saw {got!r}, handler supplied {want!r}"))
         for k, _v in cl["headers"]:
@@ -1002,7 +1005,8 @@ def oracle(case, out):
                                  f"{'reused it' if reused else 'opened a new one'}"))
     # --- nothing escaped ---------------------------------------------------------------------
     errs = [m for lvl, m in out["logs"] if lvl in ("ERROR", "CRITICAL")]
-    if errs and not expect.get("server_error"):
+    if errs and not expect.get("server_error") and case.get("cread", "read") != "none":
+        # (a caller that drops the response unread makes the handler's next write fail: not an error here)
         bad.append(("server-error-log", f"server logged: {errs[0]}"))
     if out["loop_exceptions"]:
         bad.append(("loop-exception", out["loop_exceptions"][0][:300]))
@@ -1021,8 +1025,8 @@ def plain_keepalive(case):
     rq, rs = case["req"], case["resp"]
     if rq.get("version") == "1.0" or wants_close(case):
         return False
-    if rq["method"].upper() == "HEAD" and rs["kind"] in ("stream",):
-        return False
+    if rq["method"].upper() == "HEAD":
+        return False          # a HEAD response may carry no length at all: the client then closes (both ends agree)
     if rs.get("read", "read") == "none" and (rq.get("body") or {"kind": "none"})["kind"] != "none":
         return False
     if case.get("cread", "read") == "none":
@@ -1035,6 +1039,17 @@ def plain_keepalive(case):
 # ------------------------------------------------------------------------------------------------
 # known-finding signatures
 
+def _is_head_stream(case):
+    rq, rs = case.get("req") or {}, case.get("resp") or {}
+    return (rq.get("method", "").upper() == "HEAD" and rs.get("kind") == "stream" and not rs.get("no_write")
+            and (rs.get("body") or {}).get("size", 0) > 0)
+
+
+def _is_none_body_compress(case):
+    rs = case.get("resp") or {}
+    return rs.get("kind") == "fixed" and bool(rs.get("none_body")) and rs.get("compression") not in (None, "identity")
+
+
 def _sig_h10_close_delimited(case, params):
     rq = case.get("req") or {}
     return (case.get("viol") == "hang" and rq.get("version") == "1.0" and not wants_close(case)
@@ -1046,15 +1061,40 @@ def _sig_chunked_false(case, params):
     return rq.get("chunked") is False
 
 
+DESYNC = ("hang", "stall", "reuse", "second-response", "second-exception", "second-hang", "server-error-log",
+          "keepalive-disagree", "not-quiescent")
+
+
 def _sig_h10_expect(case, params):
     rq = case.get("req") or {}
-    return case.get("viol") == "hang" and rq.get("version") == "1.0" and bool(rq.get("expect100")) and rq.get("chunked") is not False
+    return (case.get("viol") in DESYNC and rq.get("version") == "1.0" and bool(rq.get("expect100"))
+            and rq.get("chunked") is not False)
+
+
+def _sig_expect_unsent_body(case, params):
+    """HTTP/1.1, Expect: 100-continue, the handler answers without reading the body: the final response can be
+    complete before the body writer resumed; the writer is cancelled while still waiting for the 100 and the
+    connection goes back to the pool with the announced body unsent."""
+    rq, rs = case.get("req") or {}, case.get("resp") or {}
+    return (case.get("viol") in DESYNC and rq.get("version", "1.1") == "1.1" and bool(rq.get("expect100"))
+            and rs.get("read") == "none" and rq.get("chunked") is not False)
+
+
+def _sig_head_stream(case, params):
+    return _is_head_stream(case) and case.get("viol") in DESYNC + ("client-exception",) and (case.get("req") or {}).get("chunked") is not False
+
+
+def _sig_none_body_compress(case, params):
+    return _is_none_body_compress(case) and case.get("viol") in ("client-exception", "server-error-log")
 
 
 SIGNATURES = {
     "h10_keepalive_close_delimited_hang": _sig_h10_close_delimited,
     "client_chunked_false": _sig_chunked_false,
-    "h10_expect_continue_hang": _sig_h10_expect,
+    "h10_expect_continue": _sig_h10_expect,
+    "expect_body_unsent_reuse": _sig_expect_unsent_body,
+    "head_stream_body_on_wire": _sig_head_stream,
+    "none_body_compression_assert": _sig_none_body_compress,
 }
 
 
@@ -1118,6 +1158,8 @@ def gen_headers(rng, names, vals, lo=0, hi=4, drop=()):
         n = rng.choice(names)
         if n.lower() in drop:
             continue
+        if n.lower() not in ("x-dup", "set-cookie") and any(h[0].lower() == n.lower() for h in out):
+            continue          # only list-valued fields repeat (the strict parser refuses repeated singletons)
         v = rng.choice(vals)
         if n.lower() == "cookie":
             v = "c1=v1; c2=v2"
@@ -1153,7 +1195,7 @@ def gen_req(rng):
     if rng.random() < 0.25:
         rq["cookies"] = {rng.choice(COOKIE_NAMES): rng.choice(COOKIE_VALS) for _ in range(rng.randint(1, 3))}
         rq["headers"] = [h for h in rq["headers"] if h[0].lower() != "cookie"]
-    if rng.random() < 0.18:
+    if rng.random() < 0.13:
         rq["version"] = "1.0"
     r = rng.random()
     if r < 0.12:
@@ -1168,6 +1210,8 @@ def gen_req(rng):
     if rng.random() < body_p:
         k = rng.choice(["bytes"] * 6 + ["str", "str", "json", "json", "form", "form", "multipart", "multipart", "bytesio", "file",
                                        "agen", "agen", "agen", "bytearray", "memoryview", "stringio"])
+        if k in ("form", "multipart") and m not in ("POST", "PUT", "PATCH", "DELETE"):
+            k = "bytes"           # request.post() only decodes forms for these methods
         b: dict = {"kind": k, "pat": rng.choice(BODY_PATS), "seed": rng.getrandbits(16)}
         if k in ("str", "stringio"):
             b["size"] = pick_size(rng, 70000)
@@ -1183,7 +1227,7 @@ def gen_req(rng):
             for i in range(rng.randint(1, 3)):
                 if rng.random() < 0.6:
                     fs.append([f"file{i}", {"pat": rng.choice(BODY_PATS), "size": pick_size(rng, 70000), "seed": rng.getrandbits(16),
-                                            "filename": rng.choice(("a.bin", "résumé.txt", "with space.dat")),
+                                            "filename": rng.choice(("a.bin", "report-2.final.txt", "UPPER_lower.dat")),
                                             "content_type": rng.choice((None, "application/x-thing", "text/plain")),
                                             "io": rng.random() < 0.5}])
                 else:
@@ -1194,6 +1238,8 @@ def gen_req(rng):
             if k == "agen":
                 b["pieces"] = split_sizes(b["size"], rng)
         rq["body"] = b
+        if k in ("form", "multipart", "json"):
+            rq["headers"] = [h for h in rq["headers"] if h[0].lower() != "content-type"]
         if k not in ("json",) and rng.random() < 0.12 and not any(h[0].lower() == "content-length" for h in rq["headers"]):
             rq["chunked"] = True
         if k in ("bytes", "str", "agen", "bytesio", "bytearray") and rng.random() < 0.15 and rq.get("chunked") is None:
@@ -1205,6 +1251,8 @@ def gen_req(rng):
         rq["expect100"] = True
     if rng.random() < 0.04:
         rq["skip_auto"] = rng.sample(["User-Agent", "Accept", "Accept-Encoding", "Content-Type"], rng.randint(1, 2))
+        if (rq.get("body") or {}).get("kind") in ("json", "form", "multipart", "str", "stringio"):
+            rq["skip_auto"] = [h for h in rq["skip_auto"] if h != "Content-Type"] or ["Accept"]
     return rq
 
 
@@ -1224,7 +1272,7 @@ def gen_resp(rng, rq):
     if reason is not None:
         rs["reason"] = reason
     rs["headers"] = gen_headers(rng, R_HDR_NAMES, R_HDR_VALS, 0, 4,
-                                drop=("content-type",) if kind in ("text", "json", "exc") else ())
+                                drop=("content-type", "location") if kind in ("text", "json", "exc") else ())
     if kind == "file":
         rs["headers"] = [h for h in rs["headers"] if h[0].lower() not in ("etag", "content-type")]
     b = {"pat": rng.choice(BODY_PATS), "size": pick_size(rng, 70000 if kind in ("text", "exc") else None), "seed": rng.getrandbits(16)}
@@ -1259,7 +1307,7 @@ def gen_resp(rng, rq):
     if kind in ("fixed", "text", "json", "payload") and rng.random() < 0.06 and rq.get("version") != "1.0" \
             and not any(h[0].lower() == "content-length" for h in rs["headers"]):
         rs["chunked"] = True
-    if rng.random() < 0.08:
+    if rng.random() < 0.08 and kind != "exc":
         rs["force_close"] = True
     if rng.random() < 0.08 and kind != "exc":
         rs["set_cookies"] = [[rng.choice(COOKIE_NAMES), rng.choice(COOKIE_VALS)]]
@@ -1283,6 +1331,8 @@ def gen_resp(rng, rq):
 def gen_case(rng):
     rq = gen_req(rng)
     rs = gen_resp(rng, rq)
+    if rs["kind"] == "file":      # FileResponse interprets these (C15's subject), keep the plain 200 path here
+        rq["headers"] = [h for h in rq["headers"] if h[0].lower() not in ("range", "if-none-match", "if-range", "if-match")]
     big = max((rq.get("body") or {}).get("size", 0), rs["body"]["size"]) > 20000
     case = {"req": rq, "resp": rs,
             "seg": {"seed": rng.getrandbits(24), "c2s": gen_seg(rng, big), "s2c": gen_seg(rng, big)}}
